@@ -71,6 +71,15 @@ func main() {
 			usage()
 		}
 		os.Exit(cmdReplay(os.Args[2]))
+	case "determinism":
+		fs := flag.NewFlagSet("determinism", flag.ExitOnError)
+		seeds := fs.Int("seeds", 40, "number of batch seeds")
+		runs := fs.Int("runs", 60, "runs per seed")
+		if len(os.Args) < 3 {
+			usage()
+		}
+		fs.Parse(os.Args[3:])
+		os.Exit(cmdDeterminism(os.Args[2], *seeds, *runs))
 	case "build":
 		fs := flag.NewFlagSet("build", flag.ExitOnError)
 		keep := fs.String("keep", "", "directory to build into (kept)")
